@@ -32,7 +32,11 @@ RULE = (
     "zero bodies for every service code; random octet strings and random bodies behind valid headers; "
     "non-trivial = valid 6-octet header of an implemented service with 6 <= announced <= len(data), i.e. the input "
     "reaches a body/structure parser; distinct by input hash"
+    "; thorough tier only: atheris/libFuzzer campaigns (vk/fuzz.py, fuzz/c20_target.py; 8 processes, half from an empty corpus, half from "
+    "a seed corpus of valid inputs, -runs budget, -seed derived from VERIF_SEED) with this same oracle inside the target: input = the octets given to KNXIPFrame.from_knx, check_bytes() under the same step and memory budgets (libFuzzer dictionary = header prefixes of the service-code table); each "
+    "execution counts as one evaluation, it is non-trivial by the same rule (valid header of an implemented service with 6 <= announced <= len, measured in the target), distinct by input hash"
 )
+FUZZ_RUNS = 600_000  # executions per campaign (thorough tier)
 ASSUMPTIONS = [
     "termination is judged by a step budget, never by wall clock: steps = sys.monitoring PY_START/LINE/JUMP/BRANCH "
     "events in xknx code objects; limit = A + B*len(input) with A,B >= 20x the maximum observed on valid frames "
@@ -254,6 +258,10 @@ def run(ctx) -> None:
         "required_headroom_over_valid_frames": HEADROOM,
         "observed_on_valid_frames": cal,
     }
+    if not ctx.quick:  # thorough tier only: coverage-guided campaigns, oracle inside the target
+        from vk.fuzz import run_fuzz
+
+        run_fuzz(ctx, PROPERTY, runs=FUZZ_RUNS, jobs=8)
 
 
 def replay(ctx, case) -> None:
